@@ -90,6 +90,33 @@ def functor_obligations(mir, tagname):
                 if nm == "bind":
                     n_bind += 1
                     bind_ok = bind_ok and tags[:1] in (["Cons"], ["Fixnum"], ["F64Offset"])
+        # 8.5.1.3 e) / c): which type_error, decided over the arity conditions of the paths
+        for ntag in ("Cons", "Fixnum", "F64Offset"):
+            groups = {}
+            for tags, calls, p in rs:
+                if tags[:1] != [ntag]:
+                    continue
+                te = [x for x in calls if x[1].split("::")[-1] == "type_error"]
+                arc = [c for c in p.conds if c[0][0] == "op" and c[0][1] in ("Eq", "Ne") and c[0][2][1] == ("c", 0)]
+                ats = set(c[0][2][0] for c in arc)
+                if not te or len(ats) != 1:
+                    continue
+                vt = te[0][2][1]
+                kind = vt[1].split("::")[-1] if vt[0] == "agg" else "?"
+                groups.setdefault(ats.pop(), []).append((kind, arc))
+            if not groups:
+                out.append({"obligation": "functor/3 with unbound T (%s): a %s name with arity > 0 raises "
+                            "type_error(atom, Name)" % (t1, ntag), "ok": False, "why": "no such path"})
+            for at, recs in groups.items():
+                enc = Encoder()
+                a = enc.bv(at)
+                atom_f = ["(and true %s)" % " ".join(enc.cond(c) for c in arc) for k, arc in recs if k == "Atom"]
+                atomic_f = ["(and true %s)" % " ".join(enc.cond(c) for c in arc) for k, arc in recs if k != "Atom"]
+                out.append({"obligation": "functor/3 with unbound T (%s): a %s name with arity > 0 (arity from %s) raises "
+                            "type_error(atom, Name) and never type_error(atomic, Name)" % (
+                                t1, ntag, util.term_str(at).split("#")[0]),
+                            "smt": enc.decls() + "\n(assert (or (and (not (= %s #x0000000000000000)) (not (or false %s))) (or false %s)))" % (
+                                a, " ".join(atom_f), " ".join(atomic_f))})
         need = {"instantiation_error", "type_error", "representation_error", "domain_error"}
         out.append({"obligation": "functor/3 with unbound T (%s): the four error classes of 8.5.1.3 are raised" % t1,
                     "ok": need <= errs, "why": str(sorted(errs))})
@@ -582,7 +609,12 @@ def run(thorough=False):
                         tag, rep, "o + N" if tag == "Str" else "l + N - 1")})
         if not queries:
             raise core.Unsupported("no Str / Lis arm recognised")
-        structural += functor_obligations(mir, tagname)
+        for ob in functor_obligations(mir, tagname):
+            if "smt" in ob:
+                queries.append(ob["smt"])
+                meta.append({"obligation": ob["obligation"]})
+            else:
+                structural.append(ob)
         st3, q3, m3 = pstr_arm_obligations(paths, tagname, fail_idx)
         structural += st3
         queries += q3
